@@ -176,7 +176,12 @@ func walkNode(expr string, node promParser.Node) (src []Source) {
 		src = append(src, s)
 
 	case *promParser.UnaryExpr:
-		src = append(src, walkNode(expr, n.Expr)...)
+		for _, s := range walkNode(expr, n.Expr) {
+			if n.Op == promParser.SUB {
+				s.ReturnedNumber = -s.ReturnedNumber
+			}
+			src = append(src, s)
+		}
 
 	case *promParser.StepInvariantExpr:
 		// Not possible to get this from the parser.
